@@ -26,7 +26,8 @@ def pool() -> list[str]:
     out = []
     for n in (1, 2):
         out += ["".join(t) for t in itertools.product(ALPHABET, repeat=n)]
-    return sorted(set(out + ["class", "Class", "from", "userId", "user_id", "userID", "UserId", "user-id", "date", "field", "id", "Id", "type", "aB", "a_b", "a b", "a-b", "ab"]))
+    return sorted(set(out + ["class", "Class", "from", "userId", "user_id", "userID", "UserId", "user-id", "date", "field", "id", "Id", "type", "aB", "a_b", "a b", "a-b", "ab",
+                             "Date", "date_", "Field", "field-", "dataclass", "Dataclass", "data-class"]))
 
 
 def choose_pairs(ctx: Ctx, kind: str, n: int) -> list[tuple[str, str]]:
@@ -49,7 +50,9 @@ def choose_pairs(ctx: Ctx, kind: str, n: int) -> list[tuple[str, str]]:
     colliding = [(a, b) for g in groups.values() if len(g) > 1 for a, b in itertools.permutations(g, 2) if a != b]
     rng = ctx.rng
     rng.shuffle(colliding)
-    pairs = colliding[: n // 2]
+    # pairs around names with special treatment (keywords, names shadowing imports of the model module) always take part
+    special = [(a, b) for a, b in colliding if {a.lower().strip("_-"), b.lower().strip("_-")} & {"date", "field", "dataclass", "class", "id", "type", "from"}]
+    pairs = special[: n // 4] + [p for p in colliding if p not in special][: n // 2 - min(len(special), n // 4)]
     while len(pairs) < n:
         a, b = rng.sample(strings, 2)
         pairs.append((a, b))
